@@ -122,7 +122,7 @@ class Chip(object):
         base = self.machine.vcpu_base + st.size * p
         return base if field is None else base + st.fields[field].offset
 
-    def sync_system_memory(self):
+    def sync_system_memory(self, router=True, p2p=True):
         """Write the chip's state into the memory rig reads it from."""
         m = self.machine
         self.sv_write("p2p_addr", (self.x << 8) | self.y)
@@ -140,9 +140,10 @@ class Chip(object):
         self.sv_write("p2p_root", (m.root[0] << 8) | m.root[1])
         for p in range(18):
             self.sync_core(p)
-        self.sync_router()
+        if router:
+            self.sync_router()
         # P2P table: 3 bits per entry, 8 entries per word, by column
-        for col in range(m.width):
+        for col in range(m.width if p2p else 0):
             words = []
             for row0 in range(0, 256, 8):
                 w = 0
@@ -209,9 +210,9 @@ class Machine(object):
                     self.add_chip(x, y)
         return self
 
-    def sync(self):
+    def sync(self, router=True, p2p=True):
         for c in self.chips.values():
-            c.sync_system_memory()
+            c.sync_system_memory(router, p2p)
 
     def p2p_entry(self, chip, x, y):
         """P2P table entry on `chip` for destination (x, y)."""
